@@ -13,7 +13,9 @@
     SEL  := (field id "key" "f" (SEL..)) | (typename id "key") | (inline id (some "T")|(none) (SEL..))
           | (spread id "F")                       id = the source line of the node
     TREE := (tree no-data | null | leaf | (typename "T") | (list TREE..) | (obj ("key" TREE)..))
-    OBS  := (obs (verdict V) (resp (data J) (errors E..)) (calls "Type.field"..))
+    OBS  := (obs (verdict V) (resp (data J) (errors E..)) (calls "Type.field"..) (messages "text"..))
+            messages: the texts of the validation and execution errors, sorted — compared between
+            side a and side b only (FeaturesSpec.differential_observables), never with the model
     side a = the schema built from D with Request.Features = features,
     side b = the schema built from the harness's own erasure D' (every surviving type registered)
              with all features,
@@ -424,7 +426,7 @@ Definition doc_wf (d : sdoc) : bool :=
   nodup fnames && forallb (fun x => mem x fnames) spreads && forallb (fun x => mem x spreads) fnames.
 
 (** ** observations *)
-Record obs := { o_verdict : sexp; o_resp : sexp; o_calls : list name; o_rest : list sexp }.
+Record obs := { o_verdict : sexp; o_resp : sexp; o_calls : list name; o_msgs : sexp; o_rest : list sexp }.
 Definition dec_obs (l : list sexp) : option obs :=
   match l with
   | o :: rest =>
@@ -433,7 +435,9 @@ Definition dec_obs (l : list sexp) : option obs :=
           match field1 "verdict" ol, field "resp" ol, field "calls" ol with
           | Some v, Some r, Some cs =>
               match dec_names cs with
-              | Some c => Some {| o_verdict := v; o_resp := SL r; o_calls := c; o_rest := rest |}
+              | Some c => Some {| o_verdict := v; o_resp := SL r; o_calls := c;
+                                  o_msgs := match field "messages" ol with Some m => SL m | None => SL [] end;
+                                  o_rest := rest |}
               | None => None
               end
           | _, _, _ => None
@@ -520,6 +524,7 @@ Definition oracle_req (S E : schema) (F : features) (r : list sexp) : option sex
             fail (if String.eqb k "chain" then "execute:chain" else if String.eqb k "doc" then "execute:document"
                   else if String.eqb k "sdoc" then "execute:selection-sets"
                   else if String.eqb k "stdintro" then "intro:standard-query" else "response:" ++ k)
+          else if negb (sexp_eqb (o_msgs a) (o_msgs b)) then fail ("error-message:" ++ k)
           else None
       | _, _ => Some (v_bad "observation")
       end
